@@ -36,6 +36,7 @@ var props = map[string]*propInfo{
 	"C03": {},
 	"C04": {},
 	"C05": {},
+	"C06": {},
 	"C07": {},
 }
 
